@@ -20,6 +20,7 @@ verify_resume_mic is cut by its success edge; (g) verification results are never
 """
 CLAUSES = ['a: session completed only on verification success', 'b: chain validated against the addressed fabric root',
            'c: proof of possession over both ephemeral keys', 'd: session identity from certificate / record (a record enters the resumption cache whole)',
+           'e: handshake keys are salted with the running transcript hash; every Sigma message is hashed in whole, before the keys that cover it',
            'f: resumption gated by Resume1MIC', 'g: verification results not dropped', 'h: the chain verifier checks every step (shared with C19-a)']
 NOT_DECIDED = ['cryptographic soundness', 'mutated message yields same session or none', 'equal directional keys at both ends',
                'loss / reordering schedules']
@@ -242,6 +243,10 @@ def check(R):
                 n += 1
     R.floor('P8 verification call sites', n, 10)
 
+    # ---- e: the transcript feeds the keys -------------------------------------------------------
+    with R.clause('e'):
+        transcript_rules(R, resumption, responder_only)
+
     # ---- h: the chain verifier itself (shared with C19-a) ------------------------------------
     with R.clause('h'):
         # "an operational certificate chain that verifies up to the root": validate_certs only delegates to CertVerifier - its per-step
@@ -249,6 +254,145 @@ def check(R):
         from C19 import chain_step_rules
         chain_step_rules(R)
 
+
+
+KDF = 'crypto::Kdf::expand'
+TT_THR = {'crypto::canon::CryptoSensitive::access', 'crypto::canon::CryptoSensitive::access_mut', 'crypto::canon::CryptoSensitive::reference',
+          'crypto::canon::CryptoSensitiveRef::access', 'core::ops::index::IndexMut::index_mut', 'core::ops::index::Index::index'}
+
+
+def transcript_rules(R, resumption, responder_only):
+    """"... proved possession of that NOC's private key *over this transcript*": the handshake keys (S2K, S3K, session keys) are salted
+    with the running transcript hash, the transcript state has one owner, and every Sigma message is hashed in - whole, and before
+    the keys that depend on it are derived."""
+    F = R.facts
+    UPD_TT, CUR_TT = CASEP + '::update_tt', CASEP + '::current_tt_hash'
+
+    # e1: every KDF expansion in CaseP is salted with the transcript hash and keyed with the ECDH shared secret
+    def from_transcript(body, operand, depth=3, seen=()):
+        srcs = prims.sources(body, operand, through=TT_THR)
+        if any(x[0] == 'mutcall' and x[1] in (CUR_TT, CASEP + '::start') for x in srcs):
+            return True, f'{body.fn.split("::")[-1]}: <= current_tt_hash'
+        if depth <= 0:
+            return False, f'{body.fn}: no transcript hash among {sorted(map(str, srcs))[:6]}'
+        why = f'{body.fn}: no transcript hash among {sorted(map(str, srcs))[:6]}'
+        for x in sorted(x for x in srcs if x[0] == 'upvar'):
+            # a captured variable: continue in the enclosing body, at the variable the compiler resolved the capture to
+            name, parent = x[1].lstrip('*'), body.fn
+            while '::{closure#' in parent:
+                parent = parent.rsplit('::{closure#', 1)[0]
+                pb = F.bodies.get(parent)
+                if pb is None:
+                    continue
+                try:
+                    locs = named_local(pb, name)
+                except AnchorLost:
+                    locs = set()
+                for l in sorted(locs):
+                    r = from_transcript(pb, l, depth - 1)
+                    if r[0]:
+                        return True, f'captured {name} <= ' + r[1]
+        for x in sorted(x for x in srcs if x[0] == 'arg'):
+            callers = [(cb, t) for cb in F.bodies.values() if cb.focus and '::tests::' not in cb.fn for t in cb.calls()
+                       if (t.d.get('r') or t.d.get('f', '')) == body.fn and len(t.d['a']) >= x[1]]
+            if not callers:
+                continue
+            res = [from_transcript(cb, t.d['a'][x[1] - 1], depth - 1) for cb, t in callers]
+            if all(r[0] for r in res):
+                return True, f'parameter {x[1]} <= ' + '; '.join(sorted({r[1] for r in res}))
+            why = '; '.join(r[1] for r in res if not r[0])
+        return False, why
+    kdf_fns = [b for b in F.bodies.values() if b.focus and b.fn.startswith(CASEP + '::') and b.calls(KDF)]
+    R.floor('CaseP functions deriving a handshake key (Kdf::expand)', len(kdf_fns), 3)
+    for b in sorted(kdf_fns, key=lambda b_: b_.fn):
+        for t in b.calls(KDF):
+            ok, why = from_transcript(b, t.d['a'][1])
+            R.expect('P10', b.fn, 'the key derivation is salted with the transcript hash (current_tt_hash at this point of the handshake)', ok, why,
+                     why + ': the key no longer depends on the messages exchanged so far, so a proof made with it is not bound to this transcript', b.where(t.bb))
+            sec = prims.sources(b, t.d['a'][2], through=TT_THR)
+            R.expect('P10', b.fn, 'the key derivation is keyed with the ECDH shared secret of this handshake', 'shared_secret:' + CASEP in src_fields(sec),
+                     'ikm <= self.shared_secret', f'ikm sources {sorted(map(str, sec))[:6]}', b.where(t.bb))
+
+    # e2: one owner of the transcript state
+    allowed_w = {CASEP + '::start', CASEP + '::start_initiator', CASEP + '::new', CASEP + '::init'}
+    R.writers_confined('P1', 'tt:' + CASEP, allowed_w, min_sites=1)
+    for fn, callee in ((UPD_TT, 'crypto::Digest::update'), (CUR_TT, 'crypto::Digest::finish_current')):
+        b = R.body(fn)
+        cs = [t for t in b.calls() if any(n.endswith(callee.split('::')[-1]) for n in t.callee_names())]
+        R.floor(f'{callee.split("::")[-1]} in {fn.split("::")[-1]}', len(cs), 1)
+        s_ = prims.sources(b, cs[0].d['a'][0], through={'utils::init::Optional::as_opt_mut', 'utils::maybe::Maybe::as_opt_mut', 'core::option::Option::unwrap', 'core::option::Option::as_mut'})
+        R.expect('P10', b.fn, f'{fn.split("::")[-1]} works on the handshake\'s own transcript state (self.tt)', 'tt:' + CASEP in src_fields(s_) or any(f.startswith('tt:') for f in src_fields(s_)),
+                 'self.tt', f'sources {sorted(map(str, s_))[:6]}', b.where(cs[0].bb))
+        other = [x for x in b.calls() if x.d['a'][1:] and x is cs[0]]
+        if fn == UPD_TT:
+            d_ = prims.sources(b, cs[0].d['a'][1])
+            R.expect('P10', b.fn, 'update_tt hashes the bytes it is given', ('arg', 2) in d_, 'data <= parameter', f'sources {sorted(map(str, d_))[:6]}', b.where(cs[0].bb))
+
+    # e3: Sigma1 (responder side) and Sigma2 (initiator side): hashed in by the function that consumes the message, on every Ok path
+    st = R.body(CASEP + '::start')
+    R.cut('P2', st, 'return Ok', ok_return_bbs(st), 'update_tt(Sigma1 request) ok', lambda: R.call_guard(st, UPD_TT))
+    u = st.calls(UPD_TT)[0]
+    R.expect('P10', st.fn, 'the responder hashes the received Sigma1 bytes', any(x[0] == 'arg' for x in prims.sources(st, u.d['a'][1])) and not src_consts(prims.sources(st, u.d['a'][1])),
+             'update_tt(request)', f'sources {sorted(map(str, prims.sources(st, u.d["a"][1])))[:6]}', st.where(u.bb))
+    R.expect('P3', st.fn, 'the Sigma1 hash handed to the Sigma2 key is taken after Sigma1 was hashed in', not prims.precedes(st, call_bbs(st, UPD_TT), call_bbs(st, CUR_TT)),
+             'update_tt precedes current_tt_hash', 'current_tt_hash reachable before update_tt')
+    if not responder_only:
+        sd = R.body(CASEP + '::sigma2_decrypt')
+        R.cut('P2', sd, 'return Ok', ok_return_bbs(sd), 'update_tt(raw Sigma2) ok', lambda: R.call_guard(sd, UPD_TT))
+        u = sd.calls(UPD_TT)[0]
+        R.expect('P10', sd.fn, 'the initiator hashes the received Sigma2 bytes', any(x[0] == 'arg' for x in prims.sources(sd, u.d['a'][1])) and not src_consts(prims.sources(sd, u.d['a'][1])),
+                 'update_tt(raw_sigma2_payload)', f'sources {sorted(map(str, prims.sources(sd, u.d["a"][1])))[:6]}', sd.where(u.bb))
+        R.expect('P3', sd.fn, 'S2K is derived from the transcript before Sigma2 itself is hashed in (Sigma1 only)', not prims.precedes(sd, call_bbs(sd, CUR_TT), call_bbs(sd, UPD_TT)),
+                 'current_tt_hash precedes update_tt', 'update_tt reachable before current_tt_hash')
+
+    # e4: the messages we send: hashed in whole (after the closing end_container) by the closure that builds them
+    AS_SLICE = ('utils::storage::writebuf::WriteBuf::as_slice', 'tlv::write::TLVWrite::as_slice')
+    def sent_sites(owner):
+        out = []
+        for b in F.nested(owner):
+            for t in b.calls(UPD_TT):
+                sc_ = src_calls(prims.sources(b, t.d['a'][1]))
+                if any(c.endswith('::as_slice') for c in sc_):
+                    out.append((b, t))
+        return out
+    want = [(RESP + '::handle_casesigma1', 1, 'Sigma2')] + ([] if responder_only else [(INIT + '::perform', 2, 'Sigma1, Sigma3')])
+    for owner, n, what in want:
+        sites = sent_sites(owner)
+        R.floor(f'{what}: update_tt(tw.as_slice()) in {owner.split("::")[-1]}', len(sites), n)
+        for b, t in sites:
+            ends = [x.bb for x in b.calls() if any(nm.endswith('::end_container') for nm in x.callee_names())]
+            R.expect('P3', b.fn, f'{what}: the message is hashed after its closing end_container (the whole message is in the transcript)',
+                     bool(ends) and not prims.precedes(b, ends, [t.bb]), 'end_container precedes update_tt', 'update_tt reachable before the message is complete', b.where(t.bb))
+
+    # e5: Sigma3 is in the transcript before the session keys are derived
+    clo = closure_in(R, RESP + '::handle_casesigma3', ['CaseP::compute_session_keys'])
+    ck = call_bbs(clo, CASEP + '::compute_session_keys')
+    ut = clo.calls(UPD_TT)
+    R.floor('update_tt in the Sigma3 closure', len(ut), 1)
+    R.expect('P3', clo.fn, 'responder: Sigma3 is hashed in before the session keys are derived', not prims.precedes(clo, [t.bb for t in ut], ck),
+             'update_tt precedes compute_session_keys on every path', 'compute_session_keys reachable without update_tt: the session keys do not cover Sigma3', clo.where(ck[0]))
+    R.cut('P2', clo, 'compute_session_keys', ck, 'update_tt(Sigma3) ok', lambda: R.call_guard(clo, UPD_TT))
+    d_ = src_calls(prims.sources(clo, ut[0].d['a'][1], through={'transport::exchange::RxMessage::payload', 'core::ops::deref::Deref::deref'}))
+    R.expect('P10', clo.fn, 'responder: what is hashed is the received Sigma3 payload', any(c.endswith('::payload') or c.endswith('Exchange::rx') for c in d_),
+             'update_tt(exchange.rx().payload())', f'data derives from {sorted(d_)[:6]}', clo.where(ut[0].bb))
+    if not responder_only:
+        co = async_body(R, INIT + '::perform')
+        s3 = closure_in(R, INIT + '::perform', ['CaseP::sigma3_encrypt'])
+        kc = closure_in(R, INIT + '::perform', ['CaseP::compute_session_keys'])
+        def top_closure(b):
+            # the closure built directly in perform's coroutine body that (transitively) contains b
+            base = co.fn
+            rest = b.fn[len(base):]
+            first = rest.split('::')[1] if rest.startswith('::') else None
+            return base + '::' + first if first else None
+        s3_outer = [x for x in F.nested(INIT + '::perform') if x.fn != s3.fn and s3.fn.startswith(x.fn + '::') and any(t.bb is not None for t in x.calls(UPD_TT))]
+        send_sites = closure_arg_sites(co, top_closure(s3_outer[0] if s3_outer else s3))
+        key_sites = closure_arg_sites(co, top_closure(kc))
+        R.floor('initiator: call receiving the Sigma3-building closure', len(send_sites), 1)
+        R.floor('initiator: call receiving the session-key closure', len(key_sites), 1)
+        R.expect('P3', co.fn, 'initiator: Sigma3 is built (and hashed in) before the session keys are derived',
+                 not prims.precedes(co, [t.bb for t in send_sites], [t.bb for t in key_sites]), 'the Sigma3 send precedes compute_session_keys on every path',
+                 'compute_session_keys reachable without having sent / hashed Sigma3', co.where(key_sites[0].bb))
 
 
 def _reaches(body, frm, tos):
